@@ -391,6 +391,12 @@ func (r *runner) processChunk(c chunk, id int, gmp int, deadline time.Time) {
 		}
 		if r.cfg.Race {
 			r.scanRaces(sePath, gmp)
+			if !stalled && strings.Contains(string(seb), "WARNING: DATA RACE") && !rePanic.MatchString(string(seb)) {
+				// the testing package fails (and ends) a test in which the race
+				// detector reported something; the reports were taken above
+				from = last + 1
+				continue
+			}
 		}
 		r.handleDeath(last, stalled, string(seb), gmp)
 		from = last + 1
